@@ -548,3 +548,150 @@ def replay_args(v):
     if v["key"] == "c03.message_delivered_before_end_of_stream":
         return ("c03_frame_after_trailers", [])
     return None
+
+
+# ------------------------------------------------------------------------------------------------
+# client receive side: the first frame of a response (recv_response resumed behind its only await)
+
+def check_client_first_frame(L, tier, log, samples):
+    """client::RequestStream::recv_response, resumed in the state behind its await, with the frame layer answering with
+    every letter (each frame kind, each decoder / transport error, end of stream): HEADERS goes on to the QPACK decoder
+    and the field gates; every other KNOWN frame first (DATA, CANCEL_PUSH, SETTINGS, GOAWAY, MAX_PUSH_ID, PUSH_PROMISE) is the
+    connection error H3_FRAME_UNEXPECTED, an HTTP/2-reserved type H3_FRAME_UNEXPECTED, a malformed / truncated frame
+    H3_FRAME_ERROR; RESET(code) is RemoteTerminate{code} and a transport-specific stream error Undefined - both WITHOUT a
+    connection error (C07); an oversized response section is HeaderTooBig without connection error. (The end of the
+    stream before any response HEADERS is reported by h3 as a connection error; the property does not name that case for
+    the client side and it is recorded, not judged.)"""
+    def c_pollfn_poll(ex, st, key, argv, dest_ty, raw):
+        res_ty = C.payload_type(dest_ty, "Ready")
+
+        def mk(letter):
+            def ap(ex, st, a):
+                st.world["script"].append(letter)
+                if letter == "Pending":
+                    return ex.make_enum(dest_ty, "Pending")
+                r = frame_result(ex, letter, res_ty)
+                if letter == "Reset":
+                    st.world["reset_code"] = E.get_field(r, ("Err", 0), ("Quic", 0), ("StreamTerminated", 0))
+                return ex.make_enum(dest_ty, "Ready", [r])
+            return ap
+        return [Case(None if i == 0 else z3.BoolVal(True), mk(l)) for i, l in enumerate(LETTERS)]
+
+    def c_parts(ex, st, key, argv, dest_ty, raw):
+        def ok(ex, st, a):
+            return ex.make_enum(dest_ty, "Ok", [Obj("(http::StatusCode, http::HeaderMap)")])
+
+        def bad(ex, st, a):
+            st.world["fields"] = "malformed"
+            return ex.make_enum(dest_ty, "Err", [Obj("proto::headers::HeaderError")])
+        return [Case(None, ok), Case(z3.BoolVal(True), bad)]
+    con = [
+        (r"PollFn as .*Future::poll$", c_pollfn_poll),
+        (r"^Header::into_response_parts$", c_parts),
+        (r"^Response::new$|(status|headers|version)_mut$", lambda ex, st, key, argv, dest_ty, raw: [Case(None, lambda ex, st, a: Ref(Cell(Obj("slot"))))]),
+        (r"^connection::RequestStream::stop_sending$", eff("stop_sending")),
+    ] + contracts(1)
+    ex = E.make_executor(L, INLINE, con)
+    st = State()
+    st.world.update({"script": []})
+    co = Obj("{async fn body of client::stream::RequestStream<S, B>::recv_response()}", z3.BitVecVal(3, 32))
+    pin = Obj("Pin<&mut coroutine>")
+    pin.fields[(None, 0)] = Cell(Ref(Cell(co)))
+    E.call(ex, st, r"^client::stream::<impl[^>]*>::recv_response::\{closure#0\}$", [pin, Ref(Cell(Obj("Context")))])
+    outs = E.collect(ex, st)
+    viols = []
+    queries = 0
+    codes = {n: E.code_value(L.consts, n) for n in ("H3_FRAME_UNEXPECTED", "H3_FRAME_ERROR", "QPACK_DECOMPRESSION_FAILED")}
+    wit = {"client.response_delivered": False, "client.frame_unexpected": False, "client.remote_terminate": False, "client.frame_error": False}
+    fin_outcome = set()
+    for s, ret in outs:
+        letter = s.world["script"][0] if s.world["script"] else None
+        if ret == ("panic",):
+            viols.append({"key": "c03.client.panic", "what": "recv_response can panic", "model": {"first_event": letter}})
+            continue
+        conn_errs = [e for e in s.effects if e[0] == "connection_error"]
+        pending = ret.discr.as_long() == 1
+        res = None if pending else E.get_field(ret, ("Ready", 0))
+        is_err = res is not None and res.discr.as_long() == 1
+        err = E.get_field(res, ("Err", 0)) if is_err else None
+        info = {"first_event": letter, "qpack": s.world.get("qpack"), "fields": s.world.get("fields")}
+        if letter == "Pending":
+            if not pending:
+                viols.append({"key": "c03.client.answers_while_pending", "what": "recv_response completes although no frame has arrived", "model": info})
+            continue
+        if pending:
+            viols.append({"key": "c03.client.pending_after_event", "what": "recv_response stays pending although the frame layer answered", "model": info})
+            continue
+        want_conn = None
+        if letter in ("Data0", "DataN") or letter in KNOWN_BAD or letter == "Forbidden":
+            want_conn = "H3_FRAME_UNEXPECTED"
+        elif letter in ("Malformed", "UnexpectedEnd"):
+            want_conn = "H3_FRAME_ERROR"
+        if want_conn:
+            queries += 1
+            bad = (len(conn_errs) != 1 or isinstance(conn_errs[0][1], str) or conn_errs[0][1] is None or ex.feasible(s, conn_errs[0][1] != codes[want_conn]) or not is_err)
+            if bad:
+                viols.append({"key": f"c03.client.invalid_first_frame.expected_{want_conn}",
+                              "what": f"client: {letter} as the first frame of a response must be the connection error {want_conn}", "model": info})
+            else:
+                wit["client.frame_unexpected" if want_conn == "H3_FRAME_UNEXPECTED" else "client.frame_error"] = True
+            continue
+        if letter in ("Reset", "UnknownErr"):
+            name, code = stream_error_summary(ex, err) if err is not None else ("none", None)
+            if conn_errs:
+                viols.append({"key": "c07.client.stream_fault.raised_connection_error", "what": f"client: {letter} on a response stream raises a connection error", "model": info})
+            elif letter == "Reset":
+                queries += 1
+                rc = s.world.get("reset_code")
+                if name != "RemoteTerminate" or code is None or rc is None or ex.feasible(s, code != rc):
+                    viols.append({"key": "c07.client.reset.not_remote_terminate_with_peer_code", "what": "client: a RESET of the response stream is not RemoteTerminate with the peer's code", "model": info})
+                else:
+                    wit["client.remote_terminate"] = True
+            elif name != "Undefined":
+                viols.append({"key": "c07.client.transport_stream_error.not_undefined", "what": "client: a transport-specific stream error is not passed through as Undefined", "model": info})
+            continue
+        if letter == "ConnClose":
+            if not conn_errs:
+                viols.append({"key": "c03.client.transport_error.not_reported", "what": "client: a connection close seen on the response stream is not raised", "model": info})
+            continue
+        if letter == "Fin":
+            fin_outcome.add("connection error" if conn_errs else ("stream error" if is_err else "ok"))
+            continue
+        # HEADERS
+        qp, fl = s.world.get("qpack"), s.world.get("fields")
+        if qp == "malformed":
+            queries += 1
+            if len(conn_errs) != 1 or isinstance(conn_errs[0][1], str) or ex.feasible(s, conn_errs[0][1] != codes["QPACK_DECOMPRESSION_FAILED"]):
+                viols.append({"key": "c03.client.qpack_failure.not_decompression_failed", "what": "client: a response section the QPACK decoder refuses is not QPACK_DECOMPRESSION_FAILED", "model": info})
+            continue
+        if conn_errs:
+            viols.append({"key": "c07.client.stream_fault.raised_connection_error", "what": "client: a response HEADERS frame (oversized / malformed fields) raises a connection error", "model": info})
+            continue
+        if qp == "too_long":
+            name, _ = stream_error_summary(ex, err) if err is not None else ("none", None)
+            if name != "HeaderTooBig":
+                viols.append({"key": "c07.client.oversized_response.not_header_too_big", "what": "client: an oversized response section is not HeaderTooBig", "model": info})
+            continue
+        if fl == "malformed":
+            continue      # code and signalling decided under C12
+        if is_err:
+            viols.append({"key": "c03.client.valid_response.refused", "what": "client: a valid first HEADERS frame does not yield the response", "model": info})
+        else:
+            wit["client.response_delivered"] = True
+    log(f"client recv_response: {len(outs)} paths; end of stream before HEADERS is reported as: {sorted(fin_outcome)}")
+    return viols, {"states": len(outs), "queries": ex.queries + queries, "solver_s": ex.solver_s, "witness": wit, "functions": sorted(ex.functions_used)}
+
+
+_check_server = check
+
+
+def check(L, tier, log, samples):
+    v1, s1 = _check_server(L, tier, log, samples)
+    v2, s2 = check_client_first_frame(L, tier, log, samples)
+    s1["states"] += s2["states"]
+    s1["queries"] += s2["queries"]
+    s1["transitions"] = s1["queries"]
+    s1["solver_s"] = round(s1["solver_s"] + s2["solver_s"], 2)
+    s1["witness"].update(s2["witness"])
+    s1["functions"] = sorted(set(s1["functions"]) | set(s2["functions"]))
+    return v1 + v2, s1
